@@ -292,18 +292,16 @@ class Explorer:
         return rs
 
     def kill_cases(self, proj, execname, kinds=KINDS, maxk=60):
-        """every k of every kind until the first run survives"""
+        """every k of every kind until the first run survives (all kinds advance together, three k per round)"""
         out = []
-        for kind in kinds:
-            k = 1
-            while k <= maxk:
-                batch = [dict(type="kill", exec=execname, kind=kind, k=kk) for kk in range(k, k + 3)]
-                rs = self.explore(proj, batch)
-                alive = [r for r in rs if not r["died"]]
-                out += rs
-                if alive:
-                    break
-                k += 3
+        active = list(kinds)
+        k = 1
+        while active and k <= maxk:
+            batch = [dict(type="kill", exec=execname, kind=kind, k=kk) for kind in active for kk in range(k, k + 3)]
+            rs = self.explore(proj, batch)
+            out += rs
+            active = [kind for kind in active if all(r["died"] for r in rs if r["case"]["kind"] == kind)]
+            k += 3
         return out
 
     def finish(self):
